@@ -43,8 +43,12 @@ def fe(draw, g, nonzero=False):
 
 @st.composite
 def zval(draw, g):
-    how = draw(st.sampled_from(("one", "one", "minus_one", "two", "random", "random")))
+    how = draw(st.sampled_from(("one", "one", "minus_one", "two", "random", "random") + (("one_plus_u", "pure_u") if g == 2 else ())))
     K = KK(g)
+    if how == "one_plus_u":      # shares the real part of 1: comparisons that look at one coefficient only would take z for 1
+        return how, (1, draw(fe(1, nonzero=True)))
+    if how == "pure_u":
+        return how, (0, draw(fe(1, nonzero=True)))
     if how == "one":
         return how, K.one
     if how == "minus_one":
